@@ -173,19 +173,30 @@ func Build(s *Setup, reqs []*Req, o BuildOpts) *World {
 	for i, spec := range s.Mw {
 		mws = append(mws, mk(spec, i, -2, "mw"+itoa(i), &appSims))
 	}
-	at := 0
-	for _, b := range s.Batches {
-		if at+b > len(mws) {
-			b = len(mws) - at
-		}
-		if b <= 0 {
-			break
-		}
-		f.Use(mws[at : at+b]...)
-		at += b
+	early := mws
+	var late []flamego.Handler
+	if s.LateMw > 0 && s.LateMw < len(mws) {
+		early, late = mws[:len(mws)-s.LateMw], mws[len(mws)-s.LateMw:]
 	}
-	if at < len(mws) {
-		f.Use(mws[at:]...)
+	if s.ViaHandlers {
+		// a throw-away stack first; Handlers() must replace it completely
+		f.Use(func() {}, func() {})
+		f.Handlers(early...)
+	} else {
+		at := 0
+		for _, b := range s.Batches {
+			if at+b > len(early) {
+				b = len(early) - at
+			}
+			if b <= 0 {
+				break
+			}
+			f.Use(early[at : at+b]...)
+			at += b
+		}
+		if at < len(early) {
+			f.Use(early[at:]...)
+		}
 	}
 	base := len(s.Mw)
 
@@ -209,6 +220,9 @@ func Build(s *Setup, reqs []*Req, o BuildOpts) *World {
 		var hs []flamego.Handler
 		for i, spec := range s.NotFound {
 			hs = append(hs, mk(spec, base+i, -1, "nf"+itoa(i), &sims))
+		}
+		if s.NotFoundTwice {
+			f.NotFound(func() {})
 		}
 		f.NotFound(hs...)
 		setChain(-1, sims)
@@ -245,7 +259,10 @@ func Build(s *Setup, reqs []*Req, o BuildOpts) *World {
 						w.RegErrors = append(w.RegErrors, r.Method+" "+r.Full)
 					}
 				}()
+				f.AutoHead(r.AutoHead)
 				switch r.Method {
+				case "ROUTES-STR":
+					rt = f.Routes(r.Pattern, "GET", append([]flamego.Handler{"POST"}, hs...)...)
 				case "GET":
 					rt = f.Get(r.Pattern, hs...)
 				case "POST":
@@ -280,6 +297,9 @@ func Build(s *Setup, reqs []*Req, o BuildOpts) *World {
 		}
 	}
 	walk(s.Nodes, base, nil)
+	if len(late) > 0 {
+		f.Use(late...) // middleware added after the routes exist still precedes every route's handlers
+	}
 	w.allowSubstitute = true
 	for _, l := range w.Full {
 		for _, e := range l {
